@@ -27,6 +27,8 @@ One actor = one caller (external thread or ULT).  An actor's program counter fol
                                               | hook 27, unlink, [pubE], clrIn } ; rel
                    (FIFO_WAIT)     rChkE: if (is_empty) ERR_POOL; rChkIn: if (is_in_pool != 1) ERR_POOL (both unlocked) ; mLock ; ..
   `_private` callbacks             the same bodies without the lock; pop_wait / pop_timedwait take it regardless.
+  ABT_pool_push_threads(_ex)       (src/pool/pool.c) pmCb: converts the handles, then invokes the pool's `p_push_many` callback
+                                   exactly once with the whole batch (hook 23 carries the count) -> the push_many body above.
 
 Time is abstracted: a polling pop_wait may give up after any failed attempt, a condition wait may end at any time.
 `Cfg.shared` says whether the installed callbacks are the lock-taking ones (every access mode but PRIV; FIFO_WAIT:
@@ -38,7 +40,8 @@ The queue content `q` is the *linearised* content: a pop / remove takes its unit
 the lock owner can look at the ring.  Every step that reads or writes the ring requires `owner = some a`.
 
 Ghost fields (never read by a guard that decides control flow of the code): `owner` (who holds the lock / whose
-private call is in progress), `sawEmpty`, `sawAbsent`, `lagF`, `linOps`, `linOuts`.
+private call is in progress), `sawEmpty`, `sawAbsent`, `lagF`, `linOps`, `linOuts`, `base` (the content when the actor
+entered its critical section), `done` (the units this call has pushed so far).
 -/
 namespace ArgoVerif.Model.PoolConc
 open ArgoVerif
@@ -73,6 +76,7 @@ deriving DecidableEq, Repr
 
 inductive Pc
   | idle | retp
+  | pmCb
   | sAcq | sSpin
   | aTop | aTry | aSpinE | aSpinL
   | mLock
@@ -88,6 +92,7 @@ deriving DecidableEq, Repr
 inductive Ev
   | call (a : Actor) (c : Call)
   | ret (a : Actor) (r : Res)
+  | cbPushMany (a : Actor) (n : Nat)            -- hook 23: ABTI_pool_push_many invokes `p_push_many` with n units
   | tas (a : Actor) (old : Bool)                -- test-and-set of the spinlock, value found
   | loadLock (a : Actor) (v : Bool)             -- ABTD_spinlock_is_locked
   | loadEmpty (a : Actor) (v : Bool)            -- acquire-load of `is_empty`
@@ -123,11 +128,14 @@ structure St where
   lagF : Option Actor          -- ghost: `is_empty` is behind `q` because of this actor's pending store
   linOps : List TQ.Op          -- ghost: the deque operations, in linearisation order
   linOuts : List TQ.Out        -- ghost: and their results
+  base : Actor → List Nat      -- ghost: `q` when the actor entered its critical section (private callbacks: at the call)
+  done : Actor → List Nat      -- ghost: units the call in progress has pushed (linearised) so far
 
 def init : St :=
   { q := [], flag := true, lock := false, inPool := fun _ => false, owner := none, pc := fun _ => .idle,
     cur := fun _ => .pop false, todo := fun _ => [], cnt := fun _ => 0, pu := fun _ => 0, got := fun _ => [],
-    rcOk := fun _ => false, sawEmpty := fun _ => false, sawAbsent := fun _ => false, lagF := none, linOps := [], linOuts := [] }
+    rcOk := fun _ => false, sawEmpty := fun _ => false, sawAbsent := fun _ => false, lagF := none, linOps := [], linOuts := [],
+    base := fun _ => [], done := fun _ => [] }
 
 def isPopWait : Call → Bool
   | .popWait _ => true
@@ -162,7 +170,7 @@ def wants : Call → Nat
   | _ => 0
 
 def setPc (s : St) (a : Actor) (p : Pc) : St := { s with pc := upd s.pc a p }
-def acquire (s : St) (a : Actor) : St := { s with lock := true, owner := some a }
+def acquire (s : St) (a : Actor) : St := { s with lock := true, owner := some a, base := upd s.base a s.q }
 def release (cfg : Cfg) (s : St) : St := { s with lock := false, owner := if cfg.shared then none else s.owner }
 
 /-- first counter inside the critical section -/
@@ -177,7 +185,8 @@ def csEntry (cfg : Cfg) : Call → Pc
 /-- where the body of a call ends: release the lock, or (private callbacks) return -/
 def leave (cfg : Cfg) (c : Call) : Pc := if locks cfg c then .rel else .retp
 
-def entryPc (cfg : Cfg) (c : Call) : Pc :=
+/-- first program counter of the pool callback -/
+def bodyPc (cfg : Cfg) (c : Call) : Pc :=
   match c with
   | .pushMany [] _ => .retp             -- `if (num_units > 0)` / empty loop
   | .popMany 0 _ => .retp               -- `max_threads != 0 && ..` / empty loop
@@ -192,6 +201,13 @@ def entryPc (cfg : Cfg) (c : Call) : Pc :=
     | .mutex, .remove _ => .rChkE
     | .mutex, _ => .mLock
 
+/-- first program counter of a call: `ABT_pool_push_threads(_ex)` with a non-empty batch first reaches the single
+`ABTI_pool_push_many` invocation -/
+def entryPc (cfg : Cfg) (c : Call) : Pc :=
+  match c with
+  | .pushMany (_ :: _) _ => .pmCb
+  | _ => bodyPc cfg c
+
 def callOk : Call → Bool
   | .push u _ => u != 0
   | .pushMany us _ => !us.contains 0
@@ -205,7 +221,12 @@ def stepCall (cfg : Cfg) (s : St) (a : Actor) (c : Call) : Option St :=
                        owner := if cfg.shared then s.owner else some a,
                        todo := upd s.todo a (match c with | .push u _ => [u] | .pushMany us _ => us | _ => []),
                        cnt := upd s.cnt a (wants c), got := upd s.got a [], rcOk := upd s.rcOk a false,
-                       sawEmpty := upd s.sawEmpty a false, sawAbsent := upd s.sawAbsent a false } a (entryPc cfg c))
+                       sawEmpty := upd s.sawEmpty a false, sawAbsent := upd s.sawAbsent a false,
+                       base := upd s.base a s.q, done := upd s.done a [] } a (entryPc cfg c))
+
+/-- hook 23: the one invocation of the pool's `p_push_many` callback, with the whole batch -/
+def stepCbPushMany (cfg : Cfg) (s : St) (a : Actor) (n : Nat) : Option St :=
+  if s.pc a ≠ .pmCb ∨ n ≠ (s.todo a).length then none else some (setPc s a (bodyPc cfg (s.cur a)))
 
 def resultOf (s : St) (a : Actor) : Res :=
   match s.cur a with
@@ -297,6 +318,7 @@ def stepStoreIn (cfg : Cfg) (s : St) (a : Actor) (u : Nat) (v : Bool) : Option S
     if v = false then none else
     let h := headOf (s.cur a)
     some (setPc { s with inPool := upd s.inPool u true, q := if h then u :: s.q else s.q ++ [u], lagF := none,
+                         done := upd s.done a (s.done a ++ [u]),
                          linOps := s.linOps ++ [pushOp u h], linOuts := s.linOuts ++ [TQ.Out.unit] } a
       (if s.todo a ≠ [] then .csPush else
         match cfg.lk with
@@ -363,6 +385,7 @@ def stepWake (s : St) (a : Actor) : Option St :=
 def step (cfg : Cfg) (s : St) : Ev → Option St
   | .call a c => stepCall cfg s a c
   | .ret a r => stepRet cfg s a r
+  | .cbPushMany a n => stepCbPushMany cfg s a n
   | .tas a old => stepTas cfg s a old
   | .loadLock a v => stepLoadLock s a v
   | .loadEmpty a v => stepLoadEmpty s a v
@@ -384,7 +407,7 @@ def machine (cfg : Cfg) : Machine St Ev := { init := init, step := step cfg }
 
 /-- the actor an event belongs to -/
 def actorOf : Ev → Actor
-  | .call a _ | .ret a _ | .tas a _ | .loadLock a _ | .loadEmpty a _ | .loadIn a _ _ | .clear a | .mlock a | .munlock a
+  | .call a _ | .ret a _ | .cbPushMany a _ | .tas a _ | .loadLock a _ | .loadEmpty a _ | .loadIn a _ _ | .clear a | .mlock a | .munlock a
   | .link a _ _ | .take a _ _ | .unlink a _ | .rmFail a | .storeEmpty a _ | .storeIn a _ _ | .signal a | .condWait a
   | .wake a => a
 
